@@ -94,6 +94,131 @@ PYVT = _sh.which("python3-vt") or "/opt/veriftools/pyvenv/bin/python3"
 POST["c15"] = _post_with_judge("c15", "openapi_judge.py", PYVT, "documents_judged_by_python")
 
 
+def ext_c16(run, binary, seed, scratch, deadline):
+    """C16: generate Rust programs, compile them twice (serde only / with derive(Schema)) against /repo, run them, judge in python.
+    budget = number of generated types; shards = number of crates compiled in parallel; start = first type id (replay)."""
+    import shutil, time
+    out = _empty()
+    first = run.get("start", 0)
+    n = run["budget"] - first
+    batches = max(1, min(run.get("shards", 8), n))
+    ws = os.path.join(scratch, "c16ws")
+    shutil.rmtree(ws, ignore_errors=True)
+    p = subprocess.run([sys.executable, os.path.join(VROOT, "gen", "c16gen.py"), "--seed", str(seed), "--n", str(n), "--first", str(first), "--batches", str(batches), "--out", ws],
+                       capture_output=True, text=True)
+    if p.returncode != 0:
+        out["incon"].append("c16 generator failed: " + p.stderr[-400:]); return out
+    shutil.copy("/repo/Cargo.lock", os.path.join(ws, "Cargo.lock"))
+    meta = json.load(open(os.path.join(ws, "meta.json")))
+    tdir = os.path.join(VROOT, "harness", "target-c16")
+    env = dict(os.environ, CARGO_NET_OFFLINE="true", CARGO_TARGET_DIR=tdir)
+    env.pop("RUSTFLAGS", None)
+
+    def cargo(features):
+        """returns (ok, {type id: first error message}, other errors)"""
+        cmd = ["cargo", "build", "--offline", "--message-format=json", "-q"] + (["--features", "schema"] if features else [])
+        try:
+            p = subprocess.run(cmd, cwd=ws, env=env, capture_output=True, text=True, timeout=max(60, deadline - time.time()))
+        except subprocess.TimeoutExpired:
+            return None, {}, ["cargo build timed out"]
+        per, other = {}, []
+        for line in p.stdout.splitlines():
+            if not line.startswith("{"):
+                continue
+            try:
+                m = json.loads(line)
+            except ValueError:
+                continue
+            if m.get("reason") != "compiler-message" or m["message"].get("level") != "error":
+                continue
+            msg = m["message"]
+            text = msg.get("message", "")
+            for c in msg.get("children", []):
+                if c.get("message", "").startswith("message:"):
+                    text += " | " + c["message"]
+            hit = None
+            for sp in msg.get("spans", []):
+                mm = __import__("re").search(r"/t(\d+)\.rs$", sp.get("file_name", ""))
+                if mm:
+                    hit = mm.group(1); break
+            if hit is None:
+                if "aborting due to" not in text and "could not compile" not in text:
+                    other.append(text[:300])
+            else:
+                per.setdefault(hit, text)
+        return p.returncode == 0, per, other
+
+    def exclude(ids):
+        per_batch = {}
+        for i, m in meta.items():
+            if i not in ids:
+                per_batch.setdefault(m["batch"], []).append(int(i))
+        sys.path.insert(0, os.path.join(VROOT, "gen"))
+        import c16gen
+        for b in range(batches):
+            c16gen.write_main(os.path.join(ws, f"b{b}"), sorted(per_batch.get(b, [])))
+
+    # pass 1: what serde itself accepts (anything it refuses is the generator's fault, not the derive's)
+    dropped = {}
+    for _ in range(4):
+        ok, per, other = cargo(False)
+        if ok is None or (not ok and not per):
+            out["incon"].append("c16 pass 1 (serde only) did not build: " + "; ".join(other[:3])); return out
+        if ok:
+            break
+        dropped.update(per); exclude(set(dropped))
+    else:
+        out["incon"].append("c16 pass 1 keeps failing"); return out
+    # pass 2: with derive(Schema); a type refused here is a type serde accepts and the derive does not
+    rejected = {}
+    for _ in range(6):
+        ok, per, other = cargo(True)
+        if ok is None or (not ok and not per):
+            out["incon"].append("c16 pass 2 (with derive(Schema)) did not build, and no generated type is to blame: " + "; ".join(other[:3])); return out
+        if ok:
+            break
+        rejected.update(per); exclude(set(dropped) | set(rejected))
+    else:
+        out["incon"].append("c16 pass 2 keeps failing"); return out
+    with open(os.path.join(ws, "out.jsonl"), "w") as f:
+        for b in range(batches):
+            try:
+                p = subprocess.run([os.path.join(tdir, "debug", f"c16b{b}")], capture_output=True, text=True, timeout=600)
+            except subprocess.TimeoutExpired:
+                out["incon"].append(f"c16 batch {b} timed out"); continue
+            if p.returncode != 0:
+                # a generated program died: attribute to the type after the last one that printed
+                out["incon"].append(f"c16 batch {b} exited {p.returncode}: {p.stderr[-300:]}")
+            f.write(p.stdout)
+    json.dump(rejected, open(os.path.join(ws, "rejected.json"), "w"))
+    p = subprocess.run([PYVT, os.path.join(VROOT, "oracle", "schema_judge.py"), ws], capture_output=True, text=True)
+    if p.returncode != 0:
+        out["incon"].append("c16 python judge failed: " + p.stderr[-600:]); return out
+    r = json.loads(p.stdout)
+    out["evaluations"] = r["evaluations"]
+    out["hashes"] = set(r["hashes"])
+    out["counters"] = dict(r["counters"])
+    out["counters"]["generated_types"] = n
+    out["counters"]["types_refused_by_serde_itself_(dropped)"] = len(dropped)
+    out["counters"]["types_refused_by_derive_schema"] = len(rejected)
+    out["samples"] = r["samples"]
+    out["viol_per_sig"] = dict(r["viol_per_sig"])
+    for v in r["violations"]:
+        v = dict(v)
+        cid = v["case"]["case_index"]
+        try:
+            v["case"]["source"] = open(os.path.join(ws, f"b{meta[str(cid)]['batch']}", "src", f"t{cid}.rs")).read()[:6000]
+        except OSError:
+            pass
+        v["run"] = {"engine": run["engine"], "variant": run["variant"], "features": run.get("features", []), "flags": run.get("flags", {}), "external": "c16",
+                    "budget": run["budget"], "case": cid, "shard": 0, "nshards": 1, "seed": seed}
+        out["viols"].append(v)
+    return out
+
+
+EXTERNAL["c16"] = ext_c16
+
+
 def R(engine, variant, budget, shards=16, flags=None, features=None, **kw):
     d = dict(engine=engine, variant=variant, budget=budget, shards=shards, flags=flags or {}, features=features or [])
     d.update(kw)
@@ -563,4 +688,35 @@ META["C15"] = dict(
     level_text="Documents are produced by the real code for generated applications and checked structurally and against the description; documented operations are exercised against the real router and must reach the registered handler.",
     level_note="Trusts the jsonschema package, the judge and the hand-written catalogue expectations. Sampled applications from a 9-signature catalogue.",
     design_ref="DESIGN.md §5 C15",
+)
+
+
+PLANS["C16"] = dict(
+    level="exploration",
+    rule=("generated Rust programs (gen/c16gen.py): per type a definition deriving Serialize, Deserialize and (second compile pass) openapi::Schema over the attribute grammar - named structs "
+          "with 1-5 fields of scalar, Option, Vec, nested derived struct/enum types; container rename_all (all 8 rules), rename, default, deny_unknown_fields; field rename (identifier and "
+          "non-identifier names), alias, default, default = path, skip, skip_serializing, skip_deserializing, skip_serializing_if (Option::is_none, Vec::is_empty, with and without default), "
+          "flatten; newtype, tuple and unit structs; unit-only enums with rename_all and renames; enums with unit/newtype/tuple/struct variants under external, internal, adjacent and untagged "
+          "representation with rename_all, rename_all_fields and variant renames; #[openapi(component)]. Each program is compiled against /repo first with serde alone (a refusal there drops the "
+          "type as a generator fault) and then with derive(Schema) (a refusal there is a violation), run, and prints schema(), serde_json::to_value of 10 instances (one with every optional "
+          "populated, four with every optional empty, five random) and probes that delete one key of one object at any depth and call from_value. oracle/schema_judge.py (jsonschema 2020-12) "
+          "requires: schema valid; every instance validates; closed-world validation (additionalProperties:false injected) so every key written at any depth is declared; per object-schema "
+          "node reached: declared properties == keys written there and required == keys always written that serde cannot read without. distinct_nontrivial = distinct (shape, attribute set)."),
+    quick=[R("c16", "rel", 640, shards=8, external="c16")],
+    thorough=[R("c16", "rel", 9_600, shards=16, external="c16")],
+    floors={"quick": {"evaluations": 600, "distinct": 250, "types_judged": 600, "instances_validated": 6_000, "requiredness_compared": 1_500, "object_schema_nodes_reached": 800,
+                      "shape:struct": 100, "shape:enum_mixed": 60, "shape:enum_unit": 40, "shape:tuple": 20, "shape:newtype": 20, "attr:f:flatten": 10, "attr:tagging:internal": 8,
+                      "attr:tagging:adjacent": 8, "attr:tagging:untagged": 8, "attr:tagging:external": 8},
+            "thorough": {"evaluations": 9_000, "types_judged": 9_000, "instances_validated": 90_000}},
+    wall_limit={"quick": 900, "thorough": 3000},
+    assumptions=["serde_json is the wire format; the schema language is read as JSON Schema 2020-12 (OpenAPI 3.1), so `nullable` has no effect",
+                 "requiredness is compared only for keys some instance wrote and whose instance serde reads back (types with skip_serializing fields without default do not round-trip)",
+                 "generic types, lifetimes, serde(with/from/into/transparent/other) and #[openapi(schema_with)] are not in the grammar"],
+)
+META["C16"] = dict(
+    engine="gen/c16gen.py (program generator) + cargo build of the generated crates against /repo + oracle/schema_judge.py",
+    technique="runtime monitoring of generated programs: the real derive macro is expanded by rustc on generated type definitions, the resulting schema() and serde's real output for generated values are observed at run time and compared by an independent Python judge (jsonschema 2020-12 validation, closed-world key check, requiredness probes through serde_json::from_value)",
+    level_text="The derive runs on hundreds to thousands of generated type definitions; what it produces is compared with what serde actually writes and reads for generated values.",
+    level_note="Sampled type definitions from a fixed grammar; trusts rustc, serde_json, the jsonschema package and the judge.",
+    design_ref="DESIGN.md §5 C16",
 )
